@@ -265,6 +265,25 @@ func runEngineI(p *Prog, o *obls) {
 					}
 				})
 			}
+			// and no packet of the negotiated stream leaves without a number: every downstream write in the numbering
+			// function is preceded by the SetExtension on every path from its entry (a per-packet pass-through — an SSRC
+			// guard copied from another interceptor — lets repair packets of the stream out unnumbered)
+			if len(setExt) > 0 {
+				fnS := setExt[0].Parent()
+				entry := fnS.Blocks[0].Instrs[0]
+				instrsOf(fnS, func(in ssa.Instruction) {
+					w, ok := in.(*ssa.Call)
+					if !ok || !isChainWrite(p, w) {
+						return
+					}
+					if isSet(entry) {
+						return
+					}
+					if pathAvoiding(entry, w, isSet) || entry == ssa.Instruction(w) {
+						p4 = append(p4, fmt.Sprintf("the downstream write at %s can be reached without the SetExtension: a packet written on the negotiated stream leaves without a transport-wide number", p.instrPos(w)))
+					}
+				})
+			}
 			if len(p4) > 0 {
 				o.bad("I4", key, pos, strings.Join(dedupe(p4), "; "))
 			} else if nW > 0 {
@@ -1691,7 +1710,7 @@ func (p *Prog) canonCondKey(f condFact) (string, bool) {
 // field's own chain (`q.free = recycled.next` with recycled loaded from q.free), or a node that the same function
 // zeroed as a whole before (`*n = node{}` dominating the store): a stack of wiped nodes kept for reuse.
 func onlyWipedEnter(p *Prog, fk string) bool {
-	n := 0
+	n, nWiped := 0, 0
 	ok := true
 	for _, fn := range p.Funcs {
 		instrsOf(fn, func(in ssa.Instruction) {
@@ -1739,8 +1758,10 @@ func onlyWipedEnter(p *Prog, fk string) bool {
 			})
 			if !wiped {
 				ok = false
+			} else {
+				nWiped++
 			}
 		})
 	}
-	return ok && n > 0
+	return ok && n > 0 && nWiped > 0
 }
